@@ -362,6 +362,23 @@ def _raises_lib_error(body):
     return False
 
 
+def _same_const(repo, mod, expr, size_texts):
+    """does ``expr`` fold to the same integer as one of the size expressions (module constants such as
+    sfntDirectorySize = sstruct.calcsize(sfntDirectoryFormat))?"""
+    env = module_env(repo, mod)
+    v = try_fold(expr, env)
+    if not isinstance(v, int):
+        return False
+    for t in size_texts:
+        try:
+            w = try_fold(ast.parse(t, mode="eval").body, env)
+        except SyntaxError:
+            continue
+        if w == v:
+            return True
+    return False
+
+
 def f17_err_type(ctx, repo):
     ctx.rule("F17a", "on the file-open path every struct/sstruct unpack of bytes read from the file is dominated by a length test whose failing arm raises TTLibError", floor=6)
     ctx.rule("F17b", "on the file-open path no assert guards file-derived data (asserts are not the library error and vanish under -O)", floor=5)
@@ -391,13 +408,31 @@ def f17_err_type(ctx, repo):
                 cn = g.id_of(c)
                 var = norm(data)
                 ok = False
+                why = "no dominating length test raising TTLibError for the bytes being unpacked"
+                # the size that was asked of the file: <var> = X.read(N)
+                want_sizes = set()
+                for l in leaves:
+                    if l.kind == "call" and isinstance(l.node, ast.Call) and last_attr(l.node) == "read" and l.node.args:
+                        want_sizes.add(norm(l.node.args[0]))
+                if nm.startswith("sstruct.") and c.args:
+                    want_sizes.add("sstruct.calcsize(%s)" % norm(c.args[0]))
                 for nid, st in g.stmt.items():
-                    if isinstance(st, ast.If) and _raises_lib_error(st.body) and ("len(%s)" % var) in norm(st.test):
-                        if g.dominates(nid, cn):
-                            ok = True
+                    if isinstance(st, ast.If) and _raises_lib_error(st.body) and ("len(%s)" % var) in norm(st.test) and g.dominates(nid, cn):
+                        t = st.test
+                        # accepted shapes: len(v) != N, len(v) < N  with N the size read (or the size of the format unpacked)
+                        if isinstance(t, ast.Compare) and len(t.ops) == 1 and norm(t.left) == "len(%s)" % var and isinstance(t.ops[0], (ast.NotEq, ast.Lt)):
+                            size = norm(t.comparators[0])
+                            if is_param and not from_file:
+                                ok = True
+                            elif size in want_sizes or _same_const(repo, mod, t.comparators[0], want_sizes):
+                                ok = True
+                            else:
+                                why = f"length test compares against {size}, but the bytes were read with size {sorted(want_sizes)}"
+                        else:
+                            why = f"length test `{norm(t)}` is not of the form len(data) != N / len(data) < N"
                 if not ok and is_param and not from_file and q in ("DirectoryEntry.fromString",):
                     ok = True
-                ctx.ob("F17a", f.where, f"{nm}({norm(c.args[0])[:40]}, {var[:50]})", ok, "" if ok else "no dominating length test raising TTLibError for the bytes being unpacked")
+                ctx.ob("F17a", f.where, f"{nm}({norm(c.args[0])[:40]}, {var[:50]})", ok, "" if ok else why)
         # (b) asserts
         n_assert = 0
         for n in walk_no_nested(f.node):
